@@ -269,7 +269,7 @@ def s_washout(F, res):
         else:
             res.add([finding("S-WASHOUT", key, where(f, line), "resolve_tx %s: a first round sized from the body an earlier transaction left in the compiler is returned without a pass having reproduced it - the outcome depends on what the instance compiled before" % detail)])
     if not any(k == "converged" for k, _, _ in exits):
-        res.add([finding("S-WASHOUT", "tx3_resolver::resolve_tx|no convergence exit", where(f), "the loop has no exit on eval_pass() == None")])
+        res.add([finding("S-WASHOUT", "tx3_resolver::resolve_tx|no convergence exit", where(f), "the loop has no exit on a confirmed fixed point (the pass function answering None, or this round's evaluation / fee equal to what the round was computed with)")])
     elif n == 0 or all(o.status != "finding" for o in res.obs if o.rule == "S-WASHOUT"):
         res.add([ok("S-WASHOUT", "tx3_resolver::resolve_tx|success exits are confirmed fixed points", where(f), "apart from the listed give-up exit, the loop is left towards Ok(..) only when a pass reproduced the previous one")])
 
